@@ -1056,7 +1056,17 @@ class LuaASTEchoWriter(BaseLuaWriter):
                 in_parens = True
                 self._indent += 1
         else:
-            if self._tokens[self._pos].matches(lexer.TokSymbol(b'(')):
+            # An open paren here belongs to this expression, unless the value
+            # is an index/attribute/call chain that starts with a
+            # parenthesized prefix: then it belongs to that prefix.
+            leftmost = node.value
+            while isinstance(leftmost, (parser.VarIndex,
+                                        parser.VarAttribute,
+                                        parser.FunctionCall,
+                                        parser.FunctionCallMethod)):
+                leftmost = leftmost.exp_prefix
+            if (self._tokens[self._pos].matches(lexer.TokSymbol(b'(')) and
+                    not getattr(leftmost, 'paren_prefix', False)):
                 yield b'('
                 in_parens = True
                 self._pos += 1
@@ -1219,8 +1229,30 @@ class LuaASTEchoWriter(BaseLuaWriter):
           Chunks of code for the node.
         """
         yield self._get_code_for_spaces(node)
+        if not getattr(node, 'paren_prefix', False):
+            for t in super()._walk(node):
+                yield t
+            return
+
+        # The node is a parenthesized expression used as the prefix of an
+        # index, attribute or call, e.g. ("x"):rep(3) or (a or b).c.
+        if self._args.get('ignore_tokens'):
+            yield b'('
+            for t in super()._walk(node):
+                yield t
+            yield b')'
+            return
+        assert self._tokens[self._pos].matches(lexer.TokSymbol(b'('))
+        self._pos += 1
+        yield b'('
+        self._indent += 1
         for t in super()._walk(node):
             yield t
+        self._indent -= 1
+        spaces = self._get_code_for_spaces(None)
+        assert self._tokens[self._pos].matches(lexer.TokSymbol(b')'))
+        self._pos += 1
+        yield spaces + b')'
 
     def to_lines(self):
         """Generates lines of Lua source based on the parser output.
